@@ -21,6 +21,7 @@ class Values:
         self.received = {k: 0 for k in self.sinks}
         self.order_cost = {mm: 0 for mm in self.maints}
         self.n_recv = self.n_hooks = 0
+        self.n_hook_views = self.n_gen_views = 0
         self.done = {}
         self.part_values = set()
         self.value_changes = 0
@@ -130,6 +131,17 @@ class Values:
                 ctx.report('sink_value', f'sink {k}: value {dev.value!r}, value_of_received_parts '
                            f'{dev.value_of_received_parts!r}, summed value at receipt {self.received[k]!r}')
                 return
+        gv = getattr(log, 'gen_views', None)
+        while isinstance(gv, list) and self.n_gen_views < len(gv):
+            sid, k, produced, val, cost, nrec = gv[self.n_gen_views][:6]
+            self.n_gen_views += 1
+            # while the generator hook makes part k, the k-1 parts before it have been supplied and booked
+            if produced != k - 1 or val != -cost:
+                ctx.report('source_value', f'source {sid}: while its generator made part {k} the source showed '
+                           f'produced_parts {produced!r}, value {val!r}, cost_of_produced_parts {cost!r} '
+                           f'({k - 1} parts had been handed over)')
+                return
+            ctx.count('source_books_read_inside_the_generator_hook')
         while self.n_hooks < len(log.hooks):
             t, did, what, tag, ser = log.hooks[self.n_hooks]
             self.n_hooks += 1
@@ -137,6 +149,20 @@ class Values:
                 c = order_cost(m.items[did], tag, self.done.get((did, tag), 0))
                 self.order_cost[self.maints[0]] += c
                 ctx.count('orders_costed')
+                # ... and the target's start_work hook could already read the charge in the maintainer's value
+                hv = getattr(log, 'hook_views', None)
+                if isinstance(hv, list) and self.n_hook_views < len(hv):
+                    vser, vdid, vtag, vals = hv[self.n_hook_views]
+                    self.n_hook_views += 1
+                    mm = self.maints[0]
+                    if (vdid, vtag) == (did, tag) and mm in vals:
+                        want = self.initial.get(mm, 0) - self.order_cost[mm]
+                        if vals[mm] != want:
+                            ctx.report('maintainer_value', f'inside start_work({tag!r}) of {did} at {t} maintainer {mm} '
+                                       f'showed value {vals[mm]!r}; with the order that was starting charged it is '
+                                       f'{want!r}')
+                            return
+                        ctx.count('maintainer_values_read_inside_start_work')
                 if self.done.get((did, tag), 0) and m.items[did].get('wo_cost_step'):
                     ctx.count('orders_costed_differently_from_the_first')
             elif what == 'end':
